@@ -52,6 +52,15 @@ Definition C02_call_ok (c : ccfg) (k : cache) (parent : json) (cl : call) : bool
                       (controlled_by o (get_uid parent) || is_orphan o)
           | None => false
           end
+      (* server-side apply: the applied object carries our controller reference, so the API
+         server refuses it on an object somebody else controls (one controller reference) *)
+      | VPatchApply => has_controller_ref_of (q_body q) (get_uid parent)
+      (* the last-applied annotation is taken off an observed child before it is applied *)
+      | VPatchJson =>
+          match find_cached c k q with
+          | Some o => controlled_by o (get_uid parent) || is_orphan o
+          | None => false
+          end
       | _ => false
       end
   end.
@@ -87,6 +96,10 @@ Definition C02_event_ok (c : ccfg) (parent : json) (e : ev) : option string :=
           if String.eqb (q_uid_pre q) "" then Some "delete-without-uid-precondition" else
           if negb (String.eqb (q_uid_pre q) (get_uid (e_pre e))) then Some "delete-hit-other-incarnation" else
           if controlled_by (e_pre e) puid then None else Some "delete-target-not-controlled"
+      | VPatchApply =>
+          if is_null (e_pre e)
+          then (if controlled_by (e_post e) puid then None else Some "created-without-controller-ref")
+          else if controlled_by (e_pre e) puid then None else Some "write-target-not-controlled"
       | _ =>
           if controlled_by (e_pre e) puid then None else
           if is_adoption_edit puid (e_pre e) (e_post e) then None else Some "write-target-not-controlled"
